@@ -5,7 +5,7 @@
    PropOK is the property (decides VIOLATION); ModelOK compares with the narrower design table Allowed(channel)
    (a difference there alone is model drift). *)
 EXTENDS Naturals, Sequences, TLC, Json
-CONSTANTS Chans, WfBases, MutKinds, Tags, Depths, LongReps, CollTags, RecogAll, ExprLen
+CONSTANTS Chans, WfBases, MutKinds, Tags, Depths, LongReps, ExprDepths, ChainDepths, CollTags, RecogAll, ExprLen
 VARIABLES l, mism, drift, ch, b, path, tc
 
 R == INSTANCE Robust
